@@ -4,4 +4,6 @@ Keys2 == {1, 2}
 NoFix == {}
 AllFix == {"rejectnohash"}
 View == <<ep, acc, hs, nextId, calls, sent, order, queue, stale, srv, deliv, run, steps, had>>
+SubsFew == {"subscribe_tx"}      \* the exhaustive configurations use one of the ten subscription messages
+SubsAll == SubNames
 ====
